@@ -191,5 +191,16 @@ def check(chk, repo):
     rep = Rep(chk, repo)
     n = (check_knn(chk, rep, repo) or 0) + (check_uns(chk, rep, repo) or 0)
     chk.floor("k-selection loops", n, 2)
+    # the same subgraph is rebuilt for every candidate and once more for the winner: nothing may survive a rebuild
+    from ..core import Check
+    from .c12 import check_create_arcs, check_typestate
+    tmp = Check("C16")
+    check_create_arcs(tmp, Rep(tmp, repo), repo)
+    for o in tmp.obligations:
+        if o.rule in ("ARCS-init", "ARCS-acc", "ARCS-return", "ARCS-rank-maxima", "ARCS-plateaus"):
+            chk.ob("REBUILD:" + o.rule, o.function, o.construct, o.ok, o.detail, o.file, o.line)
+    check_typestate(chk, rep, repo)
+    from ..common import check_model_premises
+    check_model_premises(rep, repo)
     chk.undecided.append("'highest validation accuracy' / 'lowest cut' as numbers (consequence of the control structure)")
     chk.assumptions += ["opf_accuracy is in [0, 1] (C20); the normalised cut is finite and >= 0"]
